@@ -180,6 +180,14 @@ mod k {
             (Obj::A(p), Obj::E(q)) => (El::from(p) == *q, *p == Af::from(q)),
         }
     }
+    /// the `!=` operator (PartialEq::ne may be overridden separately from eq)
+    pub fn not_equal(x: &Obj, y: &Obj) -> Option<bool> {
+        match (x, y) {
+            (Obj::E(p), Obj::E(q)) => Some(p != q),
+            (Obj::A(p), Obj::A(q)) => Some(p != q),
+            _ => None,
+        }
+    }
     pub fn identity_predicates(o: &Obj) -> Vec<(&'static str, bool)> {
         match o {
             Obj::E(e) => vec![
@@ -271,6 +279,10 @@ mod k {
     pub fn equal(x: &Obj, y: &Obj) -> (bool, bool) {
         let (Obj::E(p), Obj::E(q)) = (x, y);
         (p == q, q == p)
+    }
+    pub fn not_equal(x: &Obj, y: &Obj) -> Option<bool> {
+        let (Obj::E(p), Obj::E(q)) = (x, y);
+        Some(p != q)
     }
     pub fn identity_predicates(o: &Obj) -> Vec<(&'static str, bool)> {
         let Obj::E(e) = o;
@@ -373,6 +385,11 @@ fn observe_pairs(ctx: &Ctx, rec: &mut Rec, prop: &str, regs: &[Reg]) {
             match guarded(move || equal(&oi, &oj)) {
                 Err(p) => rec.violation(format!("{prop}:lifecycle:eq-panic"), p, json!({"history": hist})),
                 Ok((e1, e2)) => {
+                    if let Ok(Some(ne)) = guarded(move || not_equal(&oi, &oj)) {
+                        if ne == e1 {
+                            rec.violation(format!("{prop}:lifecycle:ne"), format!("!= gives {ne} while == gives {e1}: {hist}"), json!({"a": el_json(&oi.as_el()), "b": el_json(&oj.as_el()), "history": hist}));
+                        }
+                    }
                     if e1 != meq || e2 != meq {
                         rec.violation(format!("{prop}:lifecycle:eq"), format!("== gives ({e1},{e2}) but the coordinates denote {} elements: {hist}", if meq { "equal" } else { "different" }),
                             json!({"a": el_json(&oi.as_el()), "b": el_json(&oj.as_el()), "history": hist}));
